@@ -30,7 +30,7 @@ RULE = ("matrices: exhaustive 0/1 matrices (quick <= 3x4 and 4x3, thorough <= 3x
         "flips, repeated ballots, empty and full approval sets, unapproved alternatives, arbitrary labels in arbitrary "
         "insertion order, 1 or 2 categories; large planted instances 8 <= m, n <= 40 (witness check + planted "
         "certificate; partition references run at every size); reorder_sets called directly on the duplicate-free "
-        "families of column sets of such matrices (all families from the exhaustive shapes, ~12 000 structured families "
+        "families of column sets of such matrices (all families from the exhaustive shapes, ~10 000 structured families (thorough 120 000) "
         "with 3-14 sets, 3 000 large ones up to 40 sets; list and dict-keys input): contract = sets_check / sets_decide; "
         "instance_to_ci_matrix compared through "
         "c1p_decide(matrix) == ci_decide(instance). non-trivial = >= 3 columns (alternatives) and a row (ballot) with "
@@ -437,7 +437,7 @@ def generate(tier, seed):
         else:
             rows, hidden = _deep_matrix(rng, nr, nc)
             out.append(_mcase(rows, nc, gen="deep5-7", **({"planted": hidden} if hidden is not None else {})))
-    nwide = 24000 if quick else 200000
+    nwide = 18000 if quick else 200000
     for i in range(nwide):                                       # 8-12 columns: witness check + planted certificate
         nr, nc = rng.randint(3, 8), rng.randint(8, 12)
         if i % 4 == 3:
@@ -445,7 +445,7 @@ def generate(tier, seed):
         else:
             rows, hidden = _deep_matrix(rng, nr, nc, flips=rng.choice([0, 0, 0, 1, 2]))
             out.append(_mcase(rows, nc, gen="deep8-12", big=1, **({"planted": hidden} if hidden is not None else {})))
-    ntall = 20000 if quick else 150000
+    ntall = 15000 if quick else 150000
     for i in range(ntall):          # many rows, near misses: a false True always carries an invalid column order
         nr, nc = rng.randint(7, 10), rng.randint(5, 9)
         if i % 3 == 2:
@@ -470,7 +470,7 @@ def generate(tier, seed):
             if key not in seen_fam:
                 seen_fam.add(key)
                 out.append(c_)
-    nfam = 12000 if quick else 120000
+    nfam = 10000 if quick else 120000
     for i in range(nfam):
         kind = i % 6
         if kind in (0, 1):
